@@ -216,7 +216,7 @@ func runGob(m *model.Model, s *ob.Set) {
 		}
 	}
 	if nAcc < 4 {
-		model.Blind("GOB: only %d buffer accesses found in GobDecode", nAcc)
+		m.Blind("GOB: only %d buffer accesses found in GobDecode", nAcc)
 	}
 
 	// ---------------- collect the decoded values
@@ -264,7 +264,7 @@ func runGob(m *model.Model, s *ob.Set) {
 		}
 	}
 	if len(decoded) < 5 {
-		model.Blind("GOB: only %d stores of decoded values found in GobDecode", len(decoded))
+		m.Blind("GOB: only %d stores of decoded values found in GobDecode", len(decoded))
 		if len(decoded) == 0 {
 			return
 		}
